@@ -1283,12 +1283,15 @@ let pd_infer cs = match cs with
                                            | CPer (f, _) ->
                                              if forallb (is_per f) cs
                                              then Some ((PPeriod f), cs)
-                                             else None
+                                             else if existsb is_none cs
+                                                  then None
+                                                  else Some (PObject, cs)
                                            | _ ->
-                                             if (||)
-                                                  ((||) (existsb is_ts cs)
-                                                    (existsb is_td cs))
-                                                  (existsb is_per_any cs)
+                                             if (&&) (existsb is_none cs)
+                                                  ((||)
+                                                    ((||) (existsb is_ts cs)
+                                                      (existsb is_td cs))
+                                                    (existsb is_per_any cs))
                                              then None
                                              else Some (PObject, cs))
 
@@ -1658,10 +1661,15 @@ let rec has_dup = function
 | [] -> false
 | x :: r -> (||) (mem_s x r) (has_dup r)
 
-(** val init_params : char list list **)
+(** val reserved_params : char list list **)
 
-let init_params =
-  ('s'::('p'::('a'::('n'::[])))) :: (('s'::('t'::('r'::('i'::('c'::('t'::[])))))) :: (('d'::('t'::('y'::('p'::('e'::[]))))) :: (('d'::('e'::('f'::('a'::('u'::('l'::('t'::('_'::('v'::('a'::('l'::('u'::('e'::[]))))))))))))) :: (('e'::('n'::('g'::('i'::('n'::('e'::[])))))) :: (('s'::('e'::('l'::('f'::[])))) :: (('c'::('l'::('s'::[]))) :: (('d'::('a'::('t'::('a'::[])))) :: [])))))))
+let reserved_params =
+  ('s'::('p'::('a'::('n'::[])))) :: (('s'::('e'::('l'::('f'::[])))) :: [])
+
+(** val opaque_params : char list list **)
+
+let opaque_params =
+  ('s'::('t'::('r'::('i'::('c'::('t'::[])))))) :: (('e'::('n'::('g'::('i'::('n'::('e'::[])))))) :: (('d'::('e'::('f'::('a'::('u'::('l'::('t'::('_'::('v'::('a'::('l'::('u'::('e'::[]))))))))))))) :: []))
 
 (** val is_time_index : ikind -> bool **)
 
@@ -1699,21 +1707,42 @@ let rec init_vars c n0 cols = function
 (** val from_table : mclass -> table -> fmodel tres **)
 
 let from_table c t =
-  if existsb (fun col -> mem_s col.pcname init_params) t.tcols
-  then TUnmodelled
-  else if has_dup c.cnames
-       then TErr DuplicateNameError
-       else if (&&) c.cstrict
-                 (existsb (fun col -> negb (mem_s col.pcname c.cnames))
-                   t.tcols)
-            then TErr InitialisationError
-            else let sp = span_of_index t.tindex in
-                 let n0 = length t.tindex.ilabels in
-                 tbind (init_vars c n0 t.tcols c.cnames) (fun vars -> TOk
-                   { fspan = sp; fnames = c.cnames; fvars = vars; fstatus =
-                   { sdt = NStr; scells = (repeat (CStr ('-'::[])) n0) };
-                   fiters = { sdt = NInt; scells =
-                   (repeat (CInt (Zneg XH)) n0) } })
+  if existsb (fun col -> mem_s col.pcname reserved_params) t.tcols
+  then TErr TypeError
+  else if existsb (fun col -> mem_s col.pcname opaque_params) t.tcols
+       then TUnmodelled
+       else if has_dup c.cnames
+            then TErr DuplicateNameError
+            else let ivals =
+                   filter (fun col ->
+                     negb
+                       (eqb0 col.pcname ('d'::('t'::('y'::('p'::('e'::[])))))))
+                     t.tcols
+                 in
+                 if (&&) c.cstrict
+                      (existsb (fun col -> negb (mem_s col.pcname c.cnames))
+                        ivals)
+                 then TErr InitialisationError
+                 else let sp = span_of_index t.tindex in
+                      let n0 = length t.tindex.ilabels in
+                      let fresh = fun vars -> { fspan = sp; fnames =
+                        c.cnames; fvars = vars; fstatus = { sdt = NStr;
+                        scells = (repeat (CStr ('-'::[])) n0) }; fiters =
+                        { sdt = NInt; scells =
+                        (repeat (CInt (Zneg XH)) n0) } }
+                      in
+                      if existsb (fun col ->
+                           eqb0 col.pcname
+                             ('d'::('t'::('y'::('p'::('e'::[])))))) t.tcols
+                      then (match c.cnames with
+                            | [] -> TOk (fresh [])
+                            | k :: _ ->
+                              if mem_s k
+                                   (('s'::('t'::('a'::('t'::('u'::('s'::[])))))) :: (('i'::('t'::('e'::('r'::('a'::('t'::('i'::('o'::('n'::('s'::[])))))))))) :: []))
+                              then TErr DuplicateNameError
+                              else TErr TypeError)
+                      else tbind (init_vars c n0 t.tcols c.cnames)
+                             (fun vars -> TOk (fresh vars))
 
 (** val from_dataframe_call : nat -> mclass -> table -> fmodel tres **)
 
@@ -1916,6 +1945,39 @@ let rec rows_to_symbols nm ty lg ld eq cd =
 let symbol_fields =
   ('n'::('a'::('m'::('e'::[])))) :: (('t'::('y'::('p'::('e'::[])))) :: (('l'::('a'::('g'::('s'::[])))) :: (('l'::('e'::('a'::('d'::('s'::[]))))) :: (('e'::('q'::('u'::('a'::('t'::('i'::('o'::('n'::[])))))))) :: (('c'::('o'::('d'::('e'::[])))) :: [])))))
 
+(** val check_field :
+    pcolumn list -> char list -> (cell -> 'a1 tres) -> unit tres **)
+
+let check_field cols name conv =
+  match find_col name cols with
+  | Some c ->
+    (match c.pccells with
+     | [] -> TUnmodelled
+     | x :: _ -> tbind (conv x) (fun _ -> TOk ()))
+  | None -> TErr KeyError
+
+(** val first_row_raises : pcolumn list -> symbol list tres **)
+
+let first_row_raises cols =
+  tbind (check_field cols ('t'::('y'::('p'::('e'::[])))) type_of_cell)
+    (fun _ ->
+    tbind
+      (check_field cols ('l'::('a'::('g'::('s'::[])))) convert_to_int_or_none)
+      (fun _ ->
+      tbind
+        (check_field cols ('l'::('e'::('a'::('d'::('s'::[])))))
+          convert_to_int_or_none) (fun _ ->
+        tbind
+          (check_field cols ('n'::('a'::('m'::('e'::[])))) (fun _ -> TOk ()))
+          (fun _ ->
+          tbind
+            (check_field cols
+              ('e'::('q'::('u'::('a'::('t'::('i'::('o'::('n'::[]))))))))
+              (fun _ -> TOk ())) (fun _ ->
+            tbind
+              (check_field cols ('c'::('o'::('d'::('e'::[])))) (fun _ -> TOk
+                ())) (fun _ -> TErr TypeError))))))
+
 (** val table_to_symbols : table -> symbol list tres **)
 
 let table_to_symbols t =
@@ -1938,16 +2000,16 @@ let table_to_symbols t =
                     | Some cd ->
                       if existsb (fun c ->
                            negb (mem_s c.pcname symbol_fields)) t.tcols
-                      then TErr TypeError
+                      then first_row_raises t.tcols
                       else rows_to_symbols (col_values nm) (col_values ty)
                              (col_values lg) (col_values ld) (col_values eq)
                              (col_values cd)
-                    | None -> TErr KeyError)
-                 | None -> TErr KeyError)
-              | None -> TErr KeyError)
-           | None -> TErr KeyError)
-        | None -> TErr KeyError)
-     | None -> TErr KeyError)
+                    | None -> first_row_raises t.tcols)
+                 | None -> first_row_raises t.tcols)
+              | None -> first_row_raises t.tcols)
+           | None -> first_row_raises t.tcols)
+        | None -> first_row_raises t.tcols)
+     | None -> first_row_raises t.tcols)
 
 (** val digits_to_Z : char list -> z -> z **)
 
